@@ -30,9 +30,9 @@ def check_table(w, rep):
         if isinstance(st, ast.Assign):
             for t in st.targets:
                 if isinstance(t, ast.Name):
-                    assigns.setdefault(t.id, []).append((st.lineno, st.value))
+                    assigns.setdefault(t.id, []).append((st.end_lineno, st.value))
                 elif isinstance(t, ast.Tuple) and t.elts and isinstance(t.elts[0], ast.Name):
-                    assigns.setdefault(t.elts[0].id, []).append((st.lineno, st.value))
+                    assigns.setdefault(t.elts[0].id, []).append((st.end_lineno, st.value))
     ite = [n for n in ast.walk(fn) if isinstance(n, ast.Call) and ast.unparse(n.func) in ("ca.if_else", "casadi.if_else", "if_else")]
     if len(ite) != 1 or len(ite[0].args) < 3:
         rep.incomplete("C06.table", "taylor_series_near_zero switch", "expected exactly one if_else(cond, series, closed) in taylor_series_near_zero", where=(REL, fn.lineno))
